@@ -205,6 +205,9 @@ int __wrap_pthread_mutex_unlock(pthread_mutex_t* m) {
     int me;
     lazy_init();
     me = self_id;
+    /* unlocking a (default) mutex that the calling thread does not hold is undefined in POSIX; in practice it releases a lock that
+       another thread believes it holds - reported like the other protocol errors */
+    if (mutex_of(m)->owner != me) { fprintf(stderr, "VSCHED-ERROR: unlock of a mutex the thread does not hold\n"); fflush(NULL); _exit(68); }
     mutex_of(m)->owner = -1;
     T[me].st = ST_RUNNABLE;
     reschedule();
